@@ -158,6 +158,10 @@ class Model:
         self.properties = [p for p in self.properties if p in other.properties]
         self.cells &= other.cells
 
+    def op_self_combine(self, how, ignore_conflicts=False):
+        # the operand IS the definition itself: union / intersection with itself change nothing
+        return 'self' if how in ('ior', 'iand') else None
+
     def op_ior(self, other):
         self.op_union_update(other)
         return 'self'
@@ -167,7 +171,7 @@ class Model:
         return 'self'
 
 
-MUTATORS = {'setitem', 'add_object', 'add_property', 'set_object', 'set_property', 'remove_object',
+MUTATORS = {'self_combine', 'setitem', 'add_object', 'add_property', 'set_object', 'set_property', 'remove_object',
             'remove_property', 'rename_object', 'rename_property', 'move_object', 'move_property',
             'remove_empty_objects', 'remove_empty_properties', 'union_update', 'intersection_update',
             'ior', 'iand'}
@@ -188,6 +192,17 @@ def apply_real(d, op):
         return d[args[0], args[1]]
     if name == 'getitem_int':
         return d[args[0]]
+    if name == 'self_combine':
+        how = args[0]
+        if how == 'ior':
+            before = d
+            d |= d
+            return 'self' if d is before else d
+        if how == 'iand':
+            before = d
+            d &= d
+            return 'self' if d is before else d
+        return getattr(d, how)(d, *args[1:])
     if name in ('union_update', 'intersection_update'):
         other = real_definition(args[0])
         return getattr(d, name)(other, *args[1:])
